@@ -10,7 +10,7 @@ import sys
 import time
 import traceback
 
-from . import common
+from . import common, cov
 
 KNOWN_FILE = os.path.join(common.VERIF_DIR, "known_findings.json")
 REPLAY_DIR = os.path.join(common.VERIF_DIR, "replays")
@@ -280,6 +280,7 @@ def worker_main(prop_id, tier, seed, shard, nshards, out_path):
     t0 = time.time()
     res = {"violation": None, "error": None}
     ctx = Ctx(prop_id, tier)
+    cov.start()
     try:
         mod = load_prop(prop_id)
         found = None
@@ -329,6 +330,7 @@ def worker_main(prop_id, tier, seed, shard, nshards, out_path):
         json.dump(res, f, default=str)
     os.replace(out_path + ".tmp", out_path)
     common.cleanup_scratch()
+    cov.dump()
     # the result is on disk: leave without joining whatever threads the code under test may have started and never stopped
     # (a helper thread pool owned by a store would keep a normal interpreter exit waiting for ever)
     sys.stdout.flush()
